@@ -40,7 +40,9 @@ def records(rng, N=None, L=None, nrec=None, wt="u", maxw=3, labels=None, ensure_
                 if w and fractional:
                     w = rng.choice([0.5, 0.25, 0.999, 2e-6, 0.1 + 0.8 * rng.random()])
                 elif w and rng.random() < 0.5:
-                    w = rng.choice([w - rng.random() * 0.9, w + 0.0, 1e-7, 0.5, 2.5])
+                    # incl. values a hair above / below an integer: rounding *up* must give n + 1 for n + 5e-7
+                    w = rng.choice([w - rng.random() * 0.9, w + 0.0, 1e-7, 0.5, 2.5,
+                                    w + 5e-7, w + 1e-9, w + 1e-6, w + 2e-6, w - 1e-9, w + 1e-12])
                 w = float(w)
             elif wt == "l" and rng.random() < 0.05:
                 w = -rng.randint(0, 2)
@@ -122,6 +124,14 @@ def case_run(cid, directed, assort, init, K, lt, recs, L, wt, r, maxit, nconv, s
     t += [str(r), str(maxit), str(nconv), str(seed), hexf(prior), str(tr)] + flist(list(script)) + flist(aff)
     if vshape:
         t.append(str(vshape))   # prior shape of the in-membership container (see harness op_run_t)
+    return " ".join(t)
+
+
+def case_run2(cid, directed, assort, init, r, maxit, nconv, parts):
+    """one Solver object, two runs; parts = [(K, recs, L, seed, aff)] * 2 (size_t labels and weights)"""
+    t = [cid, "run2", str(int(directed)), str(int(assort)), init, str(r), str(maxit), str(nconv)]
+    for K, recs, L, seed, aff in parts:
+        t += [str(K), "u"] + recs_tokens(recs, L, "u") + [str(seed)] + flist(aff)
     return " ".join(t)
 
 
